@@ -2,12 +2,18 @@
 C15 — table.update / table.delete change exactly the rows the predicate selects; nothing changes
 before execute().
 
-proof      : lean/SqlframeModel/Props/C15.lean (C15_requalify, C15_update, C15_delete, C15_null_pred,
-             C15_no_pred, C15_lazy, C15_seq over the regenerated Gen.Dml)
+proof      : lean/SqlframeModel/Props/C15.lean (C15_requalify, C15_sql_reading, C15_update, C15_delete, C15_null_pred,
+             C15_no_excluded_middle, C15_no_pred, C15_lazy, C15_seq, C15_full over the regenerated Gen.Dml)
 tie        : Gen.Dml regenerated from /repo on every run (tools/gen_c15.py), compared with the statement
              text the live builder produces, and the correspondence stream below:
              real sqlframe + DuckDB   vs   Impl/C15Dml.lean `stepCmd`   vs   the specification
-search     : the same stream compares the implementation with the specification directly
+search     : the same stream compares the implementation with the specification directly; targeted families
+             (gen_tautology_cases: laws of two-valued logic over NULL rows; gen_subquery_cases: predicates with
+             subqueries on a second table that shares column names; gen_spelling_cases: SQL text in spellings on
+             which SQL lexers differ); failing cases are shrunk (statements, rows, predicate sub-terms, spellings)
+spec check : which rows a predicate text selects is compared with PySpark's DataFrame.filter(text)
+             (tools/oracle/c15_pyspark.json each run; live JVM through c15_spark.py in the thorough tier)
+engine trap: DuckDB 1.2.2 mis-evaluates `WHERE [NOT] EXISTS (… outer <> inner …)` for a NULL outer value — see engine_trap
 """
 from __future__ import annotations
 
@@ -26,8 +32,22 @@ MODULES = ["SqlframeModel.Codec.C15", "SqlframeModel.Props.C15"]  # the codec is
 GEN = ["Dml"]
 SOURCES = ["SqlframeModel/Props/C15.lean", "SqlframeModel/Lemmas/C15.lean", "SqlframeModel/Impl/C15Dml.lean"]
 
-SCHEMAS = [{"k": "int", "z": "int", "s": "str"}, {"k": "int", "z": "int"}, {"k": "int", "z": "int", "y": "int", "s": "str"}]
-PRED_STYLES = ["handle", "fcol", "mixed", "sql", "absent", "aliased", "const_py", "const_lit", "const_sql"]
+SCHEMAS = [
+    {"k": "int", "z": "int", "s": "str"},
+    {"k": "int", "z": "int"},
+    {"k": "int", "z": "int", "y": "int", "s": "str"},
+    {"k": "int", "z": "int", "s": "str", "t": "str", "b": "bool"},
+    {"k": "int", "s": "str", "b": "bool"},
+]
+# the table `o` that subqueries inside predicates select from: shares some column names with the target
+OTHER_SCHEMAS = [{"k": "int", "w": "int"}, {"k": "int", "z": "int", "w": "int"}, {"s": "str", "k": "int", "w": "int"}, {"w": "int", "v": "str"}]
+PRED_STYLES = ["handle", "fcol", "mixed", "sql", "fexpr", "absent", "aliased", "const_py", "const_lit", "const_sql"]
+TEXT_STYLES = ("sql", "fexpr", "const_sql")
+# spellings of a SQL text on which SQL lexers differ (Spark SQL's reading is the specification's)
+SPELLINGS = ["dq", "bt", "eqeq", "bang", "upper"]
+# string values: column names (a double-quoted "s" is a string in Spark SQL, the column s elsewhere), a quote, a backslash
+NAMEY_STR_POOL = [None, "", "a", "s", "t", "k", "a'b", "a\\b", "b"]
+LIKE_POOL = ["a%", "%b", "_", "%", "a_", "ab", "", "%a%", "s"]
 CONST_STYLES = ("const_py", "const_lit", "const_sql")
 RHS_STYLES = ["handle", "fcol", "mixed", "literal"]
 
@@ -43,33 +63,108 @@ def tuple_(e: t.Any) -> t.Any:
 
 
 def qualify(e: tuple, style: str, rng: random.Random) -> tuple:
+    """outer references get a reference style; references that already carry one (those inside a subquery:
+    `none:` / `sub:`) keep it"""
     if e[0] == "col":
-        q = {"handle": "cte", "fcol": "none", "sql": "none", "aliased": "cte"}.get(style) or rng.choice(["cte", "none"])
+        if ":" in e[1]:
+            return e
+        q = {"handle": "cte", "fcol": "none", "sql": "none", "fexpr": "none", "aliased": "cte"}.get(style) or rng.choice(["cte", "none"])
         return ("col", f"{q}:{e[1]}")
+    if e[0] in ("insub", "exists"):
+        return force_bare(e)
+    if e[0] == "inlist":
+        return ("inlist", qualify(e[1], style, rng), list(e[2]))
     return tuple(qualify(x, style, rng) if isinstance(x, tuple) else x for x in e)
 
 
-def to_lean_q(j: t.Any) -> t.Any:
-    """X.to_lean output -> QExpr JSON (split the style prefix off every column name)"""
-    if isinstance(j, dict):
-        if set(j) == {"col"}:
-            q, n = j["col"]["n"].split(":", 1)
-            return {"col": {"q": q, "n": n}}
-        return {k: to_lean_q(v) for k, v in j.items()}
-    if isinstance(j, list):
-        return [to_lean_q(x) for x in j]
-    return j
+def force_bare(e: tuple) -> tuple:
+    """a node that can only be written as SQL text (a subquery): every reference is bare or `o.`-qualified"""
+    if e[0] == "col":
+        return e if ":" in e[1] else ("col", "none:" + e[1])
+    if e[0] == "inlist":
+        return ("inlist", force_bare(e[1]), list(e[2]))
+    return tuple(force_bare(x) if isinstance(x, tuple) else x for x in e)
 
 
-def qexpr(e: tuple) -> t.Any:
-    return to_lean_q(X.to_lean(tuple_(e)))
-
-
-def to_sql(e: tuple) -> str:
+def force_bare_all(e: t.Any) -> tuple:
+    """the same expression written as SQL text: every reference bare (or `o.`-qualified inside a subquery)"""
     e = tuple_(e)
+    if e[0] == "col":
+        q, n = e[1].split(":", 1)
+        return ("col", ("sub:" if q == "sub" else "none:") + n)
+    if e[0] == "inlist":
+        return ("inlist", force_bare_all(e[1]), list(e[2]))
+    return tuple(force_bare_all(x) if isinstance(x, tuple) else x for x in e)
+
+
+def has_kind(e: t.Any, kinds: t.Tuple[str, ...]) -> bool:
+    e = tuple_(e)
+    if not isinstance(e, tuple) or not e:
+        return False
+    if e[0] in kinds:
+        return True
+    if e[0] == "inlist":
+        return has_kind(e[1], kinds)
+    return any(has_kind(x, kinds) for x in e[1:] if isinstance(x, tuple))
+
+
+def spell_str(v: str, sp: t.Dict[str, bool]) -> t.Tuple[str, str, bool]:
+    """(text of the literal, characters between the quotes, double-quoted?).  A quote or a backslash inside the
+    value is always written with a backslash escape (Spark SQL 3.5 reads 'a''b' as two adjacent literals)"""
+    dq = bool(sp.get("dq"))
+    quote = '"' if dq else "'"
+    raw = v.replace("\\", "\\\\").replace(quote, "\\" + quote)
+    return quote + raw + quote, raw, dq
+
+
+def str_is_token(v: str, sp: t.Dict[str, bool]) -> bool:
+    """is the literal spelled in a way whose reading depends on the lexer (double quotes, a backslash escape)?"""
+    return bool(sp.get("dq")) or spell_str(v, sp)[1] != v
+
+
+def qexpr(e: t.Any, text: bool = False, sp: t.Optional[t.Dict[str, bool]] = None) -> t.Any:
+    """expression -> QExpr JSON; `text`: the expression is written as SQL text with the spellings `sp`"""
+    e = tuple_(e)
+    sp = sp or {}
     k = e[0]
     if k == "col":
-        return e[1].split(":", 1)[1]
+        q, n = e[1].split(":", 1)
+        return {"col": {"q": q, "n": n}}
+    if k == "lit":
+        v = e[1]
+        if text and isinstance(v, str) and str_is_token(v, sp):
+            _, raw, dq = spell_str(v, sp)
+            return {"tok": {"raw": raw, "dq": dq}}
+        return {"lit": {"v": lval(v)}}
+    if k == "bin":
+        return {"bin": {"op": e[1], "a": qexpr(e[2], text, sp), "b": qexpr(e[3], text, sp)}}
+    if k in ("not", "neg", "isNull"):
+        return {k: {"a": qexpr(e[1], text, sp)}}
+    if k == "ite":
+        return {"ite": {"c": qexpr(e[1], text, sp), "t": qexpr(e[2], text, sp), "e": qexpr(e[3], text, sp)}}
+    if k == "inlist":
+        return {"inList": {"a": qexpr(e[1], text, sp), "vs": [lval(v) for v in e[2]]}}
+    if k == "like":
+        return {"like": {"a": qexpr(e[1], text, sp), "pat": e[2]}}
+    # a subquery is always SQL text; inside a Column it is an F.expr("…") in plain spelling
+    if k == "insub":
+        sp2 = sp if text else {}
+        return {"inSub": {"a": qexpr(e[1], True, sp2), "sel": qexpr(e[2], True, sp2), "whr": qexpr(e[3], True, sp2)}}
+    if k == "exists":
+        return {"exists_": {"whr": qexpr(e[1], True, sp if text else {})}}
+    raise ValueError(e)
+
+
+def to_sql(e: t.Any, sp: t.Optional[t.Dict[str, bool]] = None) -> str:
+    e = tuple_(e)
+    sp = sp or {}
+    up = (lambda w: w.upper()) if sp.get("upper") else (lambda w: w)
+    kw = (lambda w: w) if not sp.get("lowerkw") else (lambda w: w.lower())
+    k = e[0]
+    if k == "col":
+        q, n = e[1].split(":", 1)
+        name = f"`{n}`" if sp.get("bt") else up(n)
+        return f"o.{name}" if q == "sub" else name
     if k == "lit":
         v = e[1]
         if v is None:
@@ -78,24 +173,36 @@ def to_sql(e: tuple) -> str:
             return "TRUE" if v else "FALSE"
         if isinstance(v, int):
             return str(v) if v >= 0 else f"({v})"
-        return "'" + v.replace("'", "''") + "'"
+        return spell_str(v, sp)[0]
     if k == "bin":
-        sym = {"add": "+", "sub": "-", "mul": "*", "lt": "<", "le": "<=", "gt": ">", "ge": ">=", "eq": "=", "ne": "<>", "and": "AND", "or": "OR", "nseq": "<=>"}[e[1]]
-        return f"({to_sql(e[2])} {sym} {to_sql(e[3])})"
+        sym = {"add": "+", "sub": "-", "mul": "*", "lt": "<", "le": "<=", "gt": ">", "ge": ">=", "eq": "==" if sp.get("eqeq") else "=", "ne": "!=" if sp.get("bang") else "<>", "and": "AND", "or": "OR", "nseq": "<=>"}[e[1]]
+        return f"({to_sql(e[2], sp)} {kw(sym)} {to_sql(e[3], sp)})"
     if k == "not":
-        return f"(NOT {to_sql(e[1])})"
+        return f"({kw('NOT')} {to_sql(e[1], sp)})"
     if k == "neg":
-        return f"(-{to_sql(e[1])})"
+        return f"(-{to_sql(e[1], sp)})"
     if k == "isNull":
-        return f"({to_sql(e[1])} IS NULL)"
+        return f"({to_sql(e[1], sp)} {kw('IS NULL')})"
     if k == "ite":
-        return f"CASE WHEN {to_sql(e[1])} THEN {to_sql(e[2])} ELSE {to_sql(e[3])} END"
+        return f"{kw('CASE WHEN')} {to_sql(e[1], sp)} {kw('THEN')} {to_sql(e[2], sp)} {kw('ELSE')} {to_sql(e[3], sp)} {kw('END')}"
+    if k == "inlist":
+        return f"({to_sql(e[1], sp)} {kw('IN')} ({', '.join(to_sql(('lit', v), {}) for v in e[2])}))"
+    if k == "like":
+        return f"({to_sql(e[1], sp)} {kw('LIKE')} {spell_str(e[2], {})[0]})"
+    if k == "insub":
+        return f"({to_sql(e[1], sp)} {kw('IN')} ({kw('SELECT')} {to_sql(e[2], sp)} {kw('FROM')} o {kw('WHERE')} {to_sql(e[3], sp)}))"
+    if k == "exists":
+        return f"{kw('EXISTS')} ({kw('SELECT')} 1 {kw('FROM')} o {kw('WHERE')} {to_sql(e[1], sp)})"
     raise ValueError(e)
+
+
+def uses_backticks(p: dict) -> bool:
+    return bool(p.get("sp", {}).get("bt")) and has_kind(p["e"], ("col",))
 
 
 def pred_text(p: dict) -> str:
     """the SQL string handed to where=: fully parenthesised, or with the outer parentheses dropped"""
-    txt = to_sql(p["e"])
+    txt = to_sql(p["e"], p.get("sp"))
     if p.get("lower"):
         txt = txt.lower()
     if not p.get("wrapped", True) and txt.startswith("(") and txt.endswith(")"):
@@ -123,22 +230,14 @@ def is_wrapped(txt: str) -> bool:
     return True
 
 
-def show_q(e: tuple) -> str:
-    e = tuple_(e)
-    if e[0] == "col":
-        q, n = e[1].split(":", 1)
-        return f"tb[{n!r}]" if q == "cte" else f"F.col({n!r})"
-    if e[0] == "lit":
-        return f"F.lit({e[1]!r})"
-    s = X.show(e)
-    return s
-
-
-def show_expr(e: tuple) -> str:
+def show_expr(e: t.Any) -> str:
     e = tuple_(e)
     k = e[0]
-    if k in ("col", "lit"):
-        return show_q(e)
+    if k == "col":
+        q, n = e[1].split(":", 1)
+        return f"tb[{n!r}]" if q == "cte" else f"F.col({n!r})"
+    if k == "lit":
+        return f"F.lit({e[1]!r})"
     if k == "bin":
         sym = {"add": "+", "sub": "-", "mul": "*", "lt": "<", "le": "<=", "gt": ">", "ge": ">=", "eq": "==", "ne": "!=", "and": "&", "or": "|", "nseq": "<=>"}[e[1]]
         return f"({show_expr(e[2])} {sym} {show_expr(e[3])})"
@@ -150,6 +249,12 @@ def show_expr(e: tuple) -> str:
         return f"{show_expr(e[1])}.isNull()"
     if k == "ite":
         return f"F.when({show_expr(e[1])}, {show_expr(e[2])}).otherwise({show_expr(e[3])})"
+    if k == "inlist":
+        return f"{show_expr(e[1])}.isin({', '.join(repr(v) for v in e[2])})"
+    if k == "like":
+        return f"{show_expr(e[1])}.like({e[2]!r})"
+    if k in ("insub", "exists"):
+        return f"F.expr({to_sql(e)!r})"
     return str(e)
 
 
@@ -158,7 +263,144 @@ def show_expr(e: tuple) -> str:
 # ------------------------------------------------------------------------------------------------
 
 
-def gen_pred(rng: random.Random, schema: t.Dict[str, str], style: t.Optional[str] = None) -> dict:
+class G(X.Gen):
+    """the shared typed generator, plus the atoms it lacks: IN-lists, LIKE, boolean columns"""
+
+    def atom(self) -> tuple:
+        r = self.rng
+        kinds = ["inlist"]
+        if self.cols("str"):
+            kinds += ["like", "inlist_s"]
+        if self.cols("bool"):
+            kinds += ["bool", "bool", "booleq"]
+        k = r.choice(kinds)
+        if k == "inlist":
+            return ("inlist", self.int_expr(0) if r.random() < 0.8 else self.int_expr(1), r.sample([0, 1, 2, 3, -1, 5, None], r.choice([1, 2, 3])))
+        if k == "inlist_s":
+            return ("inlist", ("col", r.choice(self.cols("str"))), r.sample(["", "a", "b", "ab", "s", None], r.choice([1, 2])))
+        if k == "like":
+            return ("like", ("col", r.choice(self.cols("str"))), r.choice(LIKE_POOL))
+        if k == "booleq":
+            return ("bin", r.choice(["eq", "ne", "nseq"]), ("col", r.choice(self.cols("bool"))), ("lit", r.random() < 0.5))
+        return ("col", r.choice(self.cols("bool")))
+
+    def bool_expr(self, depth: int) -> tuple:
+        if self.rng.random() < 0.22:
+            return self.atom()
+        return super().bool_expr(depth)
+
+    def str_expr(self, depth: int) -> tuple:
+        r = self.rng
+        sc = self.cols("str")
+        if sc and r.random() < 0.7:
+            return ("col", r.choice(sc))
+        return ("lit", r.choice(self.str_lits))
+
+    str_lits: t.List[str] = ["", "a", "b"]
+
+
+def gen_table(rng: random.Random, schema: t.Dict[str, str], max_rows: int = 6, namey: bool = False, null_row: bool = False) -> t.List[t.List[t.Any]]:
+    pools = {"int": X.INT_POOL, "str": NAMEY_STR_POOL if namey else X.STR_POOL, "bool": [None, True, False]}
+    n = rng.choice([0, 1, 2, 3, 4, 5, max_rows, max_rows])
+    rows: t.List[t.List[t.Any]] = []
+    for _ in range(n):
+        if rows and rng.random() < 0.25:
+            rows.append(list(rng.choice(rows)))  # duplicates
+            continue
+        rows.append([rng.choice(pools[k]) for k in schema.values()])
+    if null_row:
+        rows.insert(rng.randrange(len(rows) + 1), [None for _ in schema])
+    return rows
+
+
+def gen_subquery(rng: random.Random, schema: t.Dict[str, str], other: t.Dict[str, str]) -> tuple:
+    """`a IN (SELECT sel FROM o WHERE whr)` / `EXISTS (SELECT 1 FROM o WHERE whr)`: inside, a bare name is o's column
+    when o has one of that name and the target row's otherwise (a correlated reference); `o.c` is always o's"""
+
+    def inner_ref(ty: str) -> t.Optional[tuple]:
+        cands = [f"none:{c}" for c, k in other.items() if k == ty] + [f"sub:{c}" for c, k in other.items() if k == ty]
+        cands += [f"none:{c}" for c, k in schema.items() if k == ty]  # shared names resolve inside; the rest are correlated
+        return ("col", rng.choice(cands)) if cands else None
+
+    def inner_int() -> tuple:
+        ref = inner_ref("int")
+        if ref is None or rng.random() < 0.25:
+            return ("lit", rng.choice([0, 1, 2, 3]))
+        return ref
+
+    def inner_pred(depth: int) -> tuple:
+        c = rng.random()
+        if depth > 0 and c < 0.25:
+            return ("bin", rng.choice(["and", "or"]), inner_pred(depth - 1), inner_pred(depth - 1))
+        if c < 0.35:
+            return ("lit", True)
+        if c < 0.45:
+            ref = inner_ref(rng.choice(["int", "str"])) or inner_int()
+            return ("not", ("isNull", ref)) if rng.random() < 0.5 else ("isNull", ref)
+        if c < 0.55 and inner_ref("str") is not None:
+            return ("bin", rng.choice(["eq", "ne"]), inner_ref("str"), ("lit", rng.choice(["a", "b", ""])) if rng.random() < 0.5 else inner_ref("str"))
+        a, b = inner_int(), inner_int()
+        return ("bin", rng.choice(X.CMP), a, b)
+
+    shape = rng.random()
+    if shape < 0.3:
+        node: tuple = ("exists", inner_pred(1))
+    else:
+        ty = rng.choice([k for k in ("int", "str") if any(v == k for v in other.values()) and any(v == k for v in schema.values())] or ["int"])
+        outer = [c for c, k in schema.items() if k == ty]
+        a: tuple = ("col", "none:" + rng.choice(outer)) if outer and rng.random() < 0.9 else ("lit", rng.choice([1, 2]) if ty == "int" else "a")
+        sel = inner_ref(ty) or ("lit", 1)
+        if ty == "int" and rng.random() < 0.2:
+            sel = ("bin", rng.choice(["add", "sub"]), sel, ("lit", 1))
+        node = ("insub", a, sel, inner_pred(1))
+    node = avoid_engine_trap(node, other)
+    if rng.random() < 0.25:
+        node = ("not", node)
+    return node
+
+
+def _correlated(e: t.Any, other: t.Dict[str, str]) -> bool:
+    """does the expression mention a bare name that the subquery's table does not have (an outer reference)?"""
+    e = tuple_(e)
+    if e[0] == "col":
+        q, n = e[1].split(":", 1) if ":" in e[1] else ("none", e[1])
+        return q != "sub" and n not in other
+    return any(_correlated(x, other) for x in e[1:] if isinstance(x, tuple))
+
+
+def engine_trap(e: t.Any, other: t.Dict[str, str], in_exists: bool = False, negated: bool = False) -> bool:
+    """DuckDB 1.2.2 (engine, not sqlframe): `WHERE [NOT] EXISTS (SELECT … WHERE outer <> inner …)` takes a NULL outer
+    value for distinct from everything (the same EXISTS in a SELECT list is right: `select …, EXISTS(…)` vs `where
+    EXISTS(…)` disagree; so does `NOT (outer = inner)`).  Such predicates are not generated and not produced by shrinking."""
+    e = tuple_(e)
+    if not isinstance(e, tuple) or not e:
+        return False
+    if e[0] == "exists":
+        return engine_trap(e[1], other, True, False)
+    if e[0] == "not":
+        return engine_trap(e[1], other, in_exists, not negated)
+    if in_exists and e[0] == "bin" and (e[1] == "ne" or (negated and e[1] in ("eq", "nseq"))) and (_correlated(e[2], other) or _correlated(e[3], other)):
+        return True
+    if e[0] == "inlist":
+        return engine_trap(e[1], other, in_exists, negated)
+    return any(engine_trap(x, other, in_exists, negated) for x in e[1:] if isinstance(x, tuple))
+
+
+def avoid_engine_trap(e: t.Any, other: t.Dict[str, str], in_exists: bool = False) -> tuple:
+    """inside EXISTS, `outer <> inner` becomes `outer < inner` (see engine_trap; the generator puts no NOT around comparisons)"""
+    e = tuple_(e)
+    if e[0] == "exists":
+        return ("exists", avoid_engine_trap(e[1], other, True))
+    if in_exists and e[0] == "bin" and e[1] == "ne" and (_correlated(e[2], other) or _correlated(e[3], other)):
+        return ("bin", "lt", e[2], e[3])
+    if e[0] in ("col", "lit", "like"):
+        return e
+    if e[0] == "inlist":
+        return ("inlist", avoid_engine_trap(e[1], other, in_exists), list(e[2]))
+    return tuple(avoid_engine_trap(x, other, in_exists) if isinstance(x, tuple) else x for x in e)
+
+
+def gen_pred(rng: random.Random, schema: t.Dict[str, str], style: t.Optional[str] = None, other: t.Optional[t.Dict[str, str]] = None, namey: bool = False) -> dict:
     style = style or rng.choice(PRED_STYLES)
     if style == "absent":
         return {"style": "absent"}
@@ -168,45 +410,49 @@ def gen_pred(rng: random.Random, schema: t.Dict[str, str], style: t.Optional[str
         if style == "const_sql":
             p["lower"] = rng.random() < 0.5
         return p
-    g = X.Gen(rng, schema)
+    g = G(rng, schema)
+    if namey:
+        g.str_lits = ["a", "s", "t", "k", "a'b", "a\\b", "b"]
     e = g.bool_expr(rng.choice([0, 1, 2]))
     if rng.random() < 0.12:
         # a predicate that is NULL on every row / on rows with NULLs
         e = ("bin", "eq", ("col", rng.choice(list(schema))), ("lit", None))
+    if other and rng.random() < 0.5:
+        sub = gen_subquery(rng, schema, other)
+        e = sub if rng.random() < 0.5 else ("bin", rng.choice(["and", "or"]), e, sub)
     p = {"style": style, "e": qualify(tuple_(e), style, rng)}
     if style == "sql":
         p["wrapped"] = rng.random() < 0.5
+    if style in ("sql", "fexpr") and rng.random() < 0.3:
+        p["sp"] = {k: True for k in SPELLINGS if rng.random() < 0.3}
     return p
 
 
 def gen_sets(rng: random.Random, schema: t.Dict[str, str], style: t.Optional[str] = None) -> t.List[dict]:
     style = style or rng.choice(RHS_STYLES)
-    g = X.Gen(rng, schema)
+    g = G(rng, schema)
     keys = rng.sample(list(schema), rng.choice([1, 1, 2]))
     out = []
     for key in keys:
         ty = schema[key]
-        if style == "literal":
-            v = rng.choice([0, 1, 7, -1, None]) if ty == "int" else rng.choice(["", "a", "zz", None])
+        if style == "literal" or ty == "bool":
+            v = rng.choice([0, 1, 7, -1, None]) if ty == "int" else rng.choice(["", "a", "zz", None]) if ty == "str" else rng.choice([True, False, None])
             e: tuple = ("lit", v)
         else:
             e = g.int_expr(1) if ty == "int" else g.str_expr(0)
             e = qualify(tuple_(e), style, rng)
-        out.append({"key": key, "key_style": rng.choice(["str", "handle", "fcol"]), "e": e, "alias": style != "literal" and rng.random() < 0.06})
+        out.append({"key": key, "key_style": rng.choice(["str", "handle", "fcol"]), "e": e, "alias": e[0] != "lit" and rng.random() < 0.06})
     return out
 
 
-def gen_dml(rng: random.Random, schema: t.Dict[str, str], pred_style: t.Optional[str] = None, rhs_style: t.Optional[str] = None, kind: t.Optional[str] = None) -> dict:
+def gen_dml(rng: random.Random, schema: t.Dict[str, str], pred_style: t.Optional[str] = None, rhs_style: t.Optional[str] = None, kind: t.Optional[str] = None, other: t.Optional[t.Dict[str, str]] = None, namey: bool = False) -> dict:
     kind = kind or rng.choice(["update", "update", "delete"])
     if kind == "update":
-        return {"k": "update", "sets": gen_sets(rng, schema, rhs_style), "pred": gen_pred(rng, schema, pred_style)}
-    return {"k": "delete", "pred": gen_pred(rng, schema, pred_style)}
+        return {"k": "update", "sets": gen_sets(rng, schema, rhs_style), "pred": gen_pred(rng, schema, pred_style, other, namey)}
+    return {"k": "delete", "pred": gen_pred(rng, schema, pred_style, other, namey)}
 
 
-def gen_case(rng: random.Random, n_dml: int, **kw: t.Any) -> dict:
-    schema = dict(rng.choice(SCHEMAS))
-    rows = X.gen_table(rng, schema, max_rows=6)
-    dmls = [gen_dml(rng, schema, **kw) for _ in range(n_dml)]
+def gen_cmds(rng: random.Random, n_dml: int) -> t.List[t.Any]:
     # command order: mostly build;execute pairs, sometimes deferred / swapped / repeated executes
     cmds: t.List[t.Any] = []
     mode = rng.random()
@@ -221,7 +467,207 @@ def gen_case(rng: random.Random, n_dml: int, **kw: t.Any) -> dict:
         order = list(range(n_dml))
         rng.shuffle(order)
         cmds = [["build", i] for i in range(n_dml)] + [["exec", i] for i in order]
-    return {"schema": schema, "rows": rows, "dmls": dmls, "cmds": cmds, "reuse_handle": rng.random() < 0.5}
+    return cmds
+
+
+def gen_other(rng: random.Random, namey: bool = False) -> dict:
+    schema = dict(rng.choice(OTHER_SCHEMAS))
+    rows = gen_table(rng, schema, max_rows=4, namey=namey)
+    if not rows and rng.random() < 0.7:
+        rows = gen_table(rng, schema, max_rows=4, namey=namey)
+    return {"schema": schema, "rows": rows}
+
+
+def gen_case(rng: random.Random, n_dml: int, with_other: t.Optional[bool] = None, namey: t.Optional[bool] = None, **kw: t.Any) -> dict:
+    schema = dict(rng.choice(SCHEMAS))
+    namey = (rng.random() < 0.25) if namey is None else namey
+    with_other = (rng.random() < 0.3) if with_other is None else with_other
+    rows = gen_table(rng, schema, max_rows=6, namey=namey)
+    c: t.Dict[str, t.Any] = {"schema": schema, "rows": rows}
+    other = None
+    if with_other:
+        c["other"] = gen_other(rng, namey)
+        other = c["other"]["schema"]
+    c["dmls"] = [gen_dml(rng, schema, other=other, namey=namey, **kw) for _ in range(n_dml)]
+    c["cmds"] = gen_cmds(rng, n_dml)
+    c["reuse_handle"] = rng.random() < 0.5
+    return c
+
+
+# --- targeted families -----------------------------------------------------------------------------
+
+
+def two_valued_identities(p: tuple, q: tuple, x: tuple) -> t.List[t.Tuple[str, tuple]]:
+    """predicates built around `p` (`q`, integer `x`) by laws of TWO-valued logic / arithmetic; in SQL's three-valued
+    logic they are NULL wherever p (x) is NULL, so any algebraic tidying of the predicate that relies on such a law
+    (complement, idempotence through NOT, reflexivity of comparisons, annihilation) changes which rows are selected"""
+
+    def n(a: tuple) -> tuple:
+        return ("not", a)
+
+    def b(op: str, a: tuple, c: tuple) -> tuple:
+        return ("bin", op, a, c)
+
+    return [
+        ("p|~p", b("or", p, n(p))),
+        ("~p|p", b("or", n(p), p)),
+        ("~(p&~p)", n(b("and", p, n(p)))),
+        ("~(~p&p)", n(b("and", n(p), p))),
+        ("(p|~p)&q", b("and", b("or", p, n(p)), q)),
+        ("(p&~p)|q", b("or", b("and", p, n(p)), q)),
+        ("~(p&~p)&q", b("and", n(b("and", p, n(p))), q)),
+        ("(p&q)|(p&~q)", b("or", b("and", p, q), b("and", p, n(q)))),
+        ("(p|q)&(p|~q)", b("and", b("or", p, q), b("or", p, n(q)))),
+        ("p|(~p&q)", b("or", p, b("and", n(p), q))),
+        ("~~p", n(n(p))),
+        ("~~~p", n(n(n(p)))),
+        ("p&p", b("and", p, p)),
+        ("p|p", b("or", p, p)),
+        ("p&true", b("and", p, ("lit", True))),
+        ("p|false", b("or", p, ("lit", False))),
+        ("p|true", b("or", p, ("lit", True))),
+        ("p&false", n(b("and", p, ("lit", False)))),
+        ("p==p", b("eq", p, p)),
+        ("p<=>p", b("nseq", p, p)),
+        ("~(p!=p)", n(b("ne", p, p))),
+        ("when(p,T,T)", ("ite", p, ("lit", True), ("lit", True))),
+        ("when(p,T,~p)", ("ite", p, ("lit", True), n(p))),
+        ("when(p,p,~p)", ("ite", p, p, n(p))),
+        ("x==x", b("eq", x, x)),
+        ("~(x!=x)", n(b("ne", x, x))),
+        ("x>=x", b("ge", x, x)),
+        ("~(x<x)", n(b("lt", x, x))),
+        ("x<=>x", b("nseq", x, x)),
+        ("x-x==0", b("eq", b("sub", x, x), ("lit", 0))),
+        ("x*0==0", b("eq", b("mul", x, ("lit", 0)), ("lit", 0))),
+        ("x+0==x", b("eq", b("add", x, ("lit", 0)), x)),
+        ("x.isNull|x==x", b("or", ("isNull", x), b("eq", x, x))),
+        ("x>1|x<=1", b("or", b("gt", x, ("lit", 1)), b("le", x, ("lit", 1)))),
+        ("~(x>1)|~(x<=1)", b("or", n(b("gt", x, ("lit", 1))), n(b("le", x, ("lit", 1))))),
+        ("x.isin(1)|~x.isin(1)", b("or", ("inlist", x, [1]), n(("inlist", x, [1])))),
+        ("x.isin(1,None)|~x.isin(1,None)", b("or", ("inlist", x, [1, None]), n(("inlist", x, [1, None])))),
+    ]
+
+
+TAUT_SCHEMA = {"k": "int", "z": "int", "s": "str", "b": "bool"}
+
+
+def taut_atoms(rng: random.Random) -> t.List[t.Tuple[str, tuple]]:
+    g = G(rng, TAUT_SCHEMA)
+    return [
+        ("cmp", ("bin", rng.choice(X.CMP), ("col", "z"), ("lit", rng.choice([1, 2, 3])))),
+        ("cmp2", ("bin", rng.choice(X.CMP), ("col", "k"), ("col", "z"))),
+        ("strcmp", ("bin", rng.choice(["eq", "ne", "lt"]), ("col", "s"), ("lit", rng.choice(["a", "b"])))),
+        ("isin", ("inlist", ("col", rng.choice(["k", "z"])), rng.sample([0, 1, 2, 3, 5], 2))),
+        ("isin_s", ("inlist", ("col", "s"), ["a", "ab"])),
+        ("like", ("like", ("col", "s"), rng.choice(["a%", "%b", "_"]))),
+        ("boolcol", ("col", "b")),
+        ("isnull", ("isNull", ("col", rng.choice(["k", "s", "b"])))),
+        ("nseq", ("bin", "nseq", ("col", "k"), ("col", "z"))),
+        ("composite", g.bool_expr(1)),
+    ]
+
+
+def gen_tautology_cases(rng: random.Random, n: int) -> t.List[dict]:
+    cases = []
+    pairs = []
+    for an, p in taut_atoms(rng):
+        for tn, _ in two_valued_identities(("lit", True), ("lit", True), ("lit", 0)):
+            pairs.append((an, tn))
+    rng.shuffle(pairs)
+    # every identity at least once, every atom kind at least once, the rest of the budget at random
+    seen_t: t.Set[str] = set()
+    seen_a: t.Set[str] = set()
+    chosen = []
+    for an, tn in pairs:
+        if tn not in seen_t or an not in seen_a:
+            chosen.append((an, tn))
+            seen_t.add(tn)
+            seen_a.add(an)
+    chosen += [pq for pq in pairs if pq not in chosen][: max(0, n - len(chosen))]
+    for an, tn in chosen[:n] if n < len(chosen) else chosen:
+        atoms = dict(taut_atoms(rng))
+        q = rng.choice(list(atoms.values()))
+        x = rng.choice([("col", "k"), ("col", "z"), ("bin", "add", ("col", "k"), ("col", "z"))])
+        e = dict(two_valued_identities(atoms[an], q, x))[tn]
+        style = rng.choice(["handle", "fcol", "mixed", "sql", "fexpr"])
+        pred = {"style": style, "e": qualify(tuple_(e), style, rng)}
+        if style == "sql":
+            pred["wrapped"] = rng.random() < 0.5
+        schema = dict(TAUT_SCHEMA)
+        kind = rng.choice(["delete", "update", "update-value"])
+        if kind == "delete":
+            d = {"k": "delete", "pred": pred}
+        elif kind == "update":
+            d = {"k": "update", "sets": gen_sets(rng, schema, "literal"), "pred": pred}
+        else:
+            # the identity decides an assignment VALUE: F.when(<identity>, 7).otherwise(<old value>)
+            rst = rng.choice(["handle", "fcol", "mixed"])
+            val = ("ite", qualify(tuple_(e), rst, rng), ("lit", 7), qualify(("col", "z"), rst, rng))
+            d = {"k": "update", "sets": [{"key": "z", "key_style": rng.choice(["str", "handle", "fcol"]), "e": val, "alias": False}], "pred": gen_pred(rng, schema, rng.choice(["absent", "handle", "const_py"]))}
+        rows = gen_table(rng, schema, max_rows=5, null_row=True)
+        cases.append({"schema": schema, "rows": rows, "dmls": [d], "cmds": [["build", 0], ["exec", 0]], "reuse_handle": rng.random() < 0.5, "origin": f"two-valued-identity:{tn}:{an}"})
+    return cases
+
+
+def gen_subquery_cases(rng: random.Random, n: int) -> t.List[dict]:
+    cases = []
+    for i in range(n):
+        schema = dict(rng.choice(SCHEMAS))
+        other = gen_other(rng)
+        if not other["rows"]:
+            other["rows"] = gen_table(rng, other["schema"], max_rows=3) or [[rng.choice(X.INT_POOL) if k == "int" else "a" for k in other["schema"].values()]]
+        style = ["sql", "fexpr", "mixed", "handle"][i % 4]
+        sub = gen_subquery(rng, schema, other["schema"])
+        e = sub
+        if style in ("mixed", "handle") or rng.random() < 0.3:
+            e = ("bin", rng.choice(["and", "or"]), G(rng, schema).bool_expr(0), sub)
+        pred = {"style": style, "e": qualify(tuple_(e), style, rng)}
+        if style == "sql":
+            pred["wrapped"] = rng.random() < 0.3
+        kind = rng.choice(["delete", "update"])
+        d = {"k": "delete", "pred": pred} if kind == "delete" else {"k": "update", "sets": gen_sets(rng, schema), "pred": pred}
+        origin = "subquery"
+        if i % 10 == 9:
+            # OUTSIDE the property (an assignment value is an expression over the row's own values): a subquery inside a
+            # value.  Generated only to tie the model's treatment of the assignment loop to the code (scope D_refStyles)
+            key = rng.choice([c for c, k in schema.items() if k == "int"])
+            d = {"k": "update", "sets": [{"key": key, "key_style": "str", "e": ("ite", force_bare(sub), ("lit", 1), ("lit", 0)), "alias": False}], "pred": gen_pred(rng, schema, "absent")}
+            origin = "subquery-in-value(outside the property)"
+        cases.append({"schema": schema, "rows": gen_table(rng, schema, max_rows=6), "other": other, "dmls": [d], "cmds": [["build", 0], ["exec", 0]], "reuse_handle": rng.random() < 0.5, "origin": origin})
+    return cases
+
+
+def gen_spelling_cases(rng: random.Random, n: int) -> t.List[dict]:
+    """SQL-string predicates in spellings on which SQL lexers differ, over string data in which the difference shows:
+    values that are column names, a quote, a backslash"""
+    cases = []
+    schema = {"k": "int", "s": "str", "t": "str"}
+    combos: t.List[t.List[str]] = [[f] for f in SPELLINGS] + [["dq", "bt"], ["dq", "eqeq", "upper"], SPELLINGS, []]
+    for i in range(n):
+        sp = {k: True for k in combos[i % len(combos)]}
+        lits = ["s", "t", "k", "a", "a'b", "a\\b"]
+        shape = rng.random()
+        col = ("col", rng.choice(["s", "t"]))
+        if shape < 0.45:
+            e: tuple = ("bin", rng.choice(["eq", "eq", "ne", "lt"]), col, ("lit", rng.choice(lits)))
+        elif shape < 0.6:
+            e = ("bin", rng.choice(["eq", "ne"]), ("lit", rng.choice(lits)), col)
+        elif shape < 0.75:
+            e = ("bin", rng.choice(["and", "or"]), ("bin", "eq", col, ("lit", rng.choice(lits))), ("bin", rng.choice(X.CMP), ("col", "k"), ("lit", rng.choice([1, 2]))))
+        elif shape < 0.85:
+            e = ("not", ("bin", "eq", col, ("lit", rng.choice(lits))))
+        else:
+            e = ("bin", "eq", ("ite", ("bin", "eq", col, ("lit", rng.choice(lits))), ("lit", 1), ("lit", 0)), ("lit", 1))
+        style = "sql" if i % 5 else "fexpr"
+        pred = {"style": style, "e": qualify(tuple_(e), style, rng), "sp": sp}
+        if style == "sql":
+            pred["wrapped"] = rng.random() < 0.3
+        kind = rng.choice(["delete", "update"])
+        d = {"k": "delete", "pred": pred} if kind == "delete" else {"k": "update", "sets": [{"key": "k", "key_style": "str", "e": ("lit", 7), "alias": False}], "pred": pred}
+        rows = gen_table(rng, schema, max_rows=6, namey=True)
+        cases.append({"schema": schema, "rows": rows, "dmls": [d], "cmds": [["build", 0], ["exec", 0]], "reuse_handle": rng.random() < 0.5, "origin": "sql-spelling:" + "+".join(sorted(sp))})
+    return cases
 
 
 # ------------------------------------------------------------------------------------------------
@@ -233,9 +679,13 @@ def pred_to_lean(p: dict) -> t.Any:
     st = p["style"]
     if st == "absent":
         return "absent"
+    sp = p.get("sp") or {}
     if st in ("sql", "const_sql"):
-        return {"sql": {"e": qexpr(p["e"]), "text": pred_text(p), "wrapped": is_wrapped(pred_text(p))}}
-    return {"expr": {"e": qexpr(p["e"]), "aliased": st == "aliased"}}
+        return {"sql": {"e": qexpr(p["e"], True, sp), "text": pred_text(p), "wrapped": is_wrapped(pred_text(p)), "backticks": uses_backticks(p)}}
+    if st == "fexpr":
+        return {"expr": {"e": qexpr(p["e"], True, sp), "aliased": False}}
+    # a top-level F.when(…) is aliased automatically
+    return {"expr": {"e": qexpr(p["e"]), "aliased": st == "aliased" or tuple_(p["e"])[0] == "ite"}}
 
 
 def rhs_aliased(s: dict) -> bool:
@@ -253,7 +703,10 @@ def case_to_lean(i: int, c: dict) -> dict:
     cmds = []
     for kind, j in c["cmds"]:
         cmds.append({"build": {"d": dml_to_lean(c["dmls"][j])}} if kind == "build" else {"exec": {"i": _lazy_index(c, j)}})
-    return {"case": i, "table": X.table_to_lean(list(c["schema"]), c["rows"]), "cmds": cmds}
+    out = {"case": i, "table": X.table_to_lean(list(c["schema"]), c["rows"]), "cmds": cmds}
+    if c.get("other"):
+        out["other"] = X.table_to_lean(list(c["other"]["schema"]), c["other"]["rows"])
+    return out
 
 
 def _lazy_index(c: dict, j: int) -> int:
@@ -268,6 +721,8 @@ def show_pred(p: dict) -> str:
         return "None"
     if st in ("sql", "const_sql"):
         return repr(pred_text(p))
+    if st == "fexpr":
+        return f"F.expr({pred_text(p)!r})"
     if st == "const_py":
         return repr(tuple_(p["e"])[1])
     s = show_expr(p["e"])
@@ -287,6 +742,8 @@ def show_dml(d: dict) -> str:
 
 def show_case(c: dict) -> str:
     head = f"tb[{', '.join(k + ':' + v for k, v in c['schema'].items())}]{c['rows']}: "
+    if c.get("other"):
+        head = f"o[{', '.join(k + ':' + v for k, v in c['other']['schema'].items())}]{c['other']['rows']}; " + head
     parts = []
     for kind, j in c["cmds"]:
         parts.append(f"e{j} = {show_dml(c['dmls'][j])}" if kind == "build" else f"e{j}.execute()")
@@ -298,32 +755,56 @@ def show_case(c: dict) -> str:
 # ------------------------------------------------------------------------------------------------
 
 
-class _Shim:
-    """routes ("col", "<q>:<name>") leaves to table['name'] or F.col('name')"""
+def to_col(e: t.Any, tb: t.Any, F: t.Any) -> t.Any:
+    """expression -> a real sqlframe Column: ("col", "cte:c") is tb['c'], ("col", "none:c") is F.col('c'); a
+    subquery can only be written as SQL text: F.expr("…")"""
+    e = tuple_(e)
+    k = e[0]
+    if k == "col":
+        q, name = e[1].split(":", 1)
+        return tb[name] if q == "cte" else F.col(name)
+    if k == "lit":
+        return F.lit(e[1])
+    if k == "bin":
+        a, b = to_col(e[2], tb, F), to_col(e[3], tb, F)
+        op = e[1]
+        if op == "nseq":
+            return a.eqNullSafe(b)
+        import operator as o
 
-    def __init__(self, tb: t.Any, F: t.Any):
-        self.tb, self.F = tb, F
-        self.lit, self.when = F.lit, F.when
-
-    def col(self, n: str) -> t.Any:
-        q, name = n.split(":", 1)
-        return self.tb[name] if q == "cte" else self.F.col(name)
+        return {"add": o.add, "sub": o.sub, "mul": o.mul, "lt": o.lt, "le": o.le, "gt": o.gt, "ge": o.ge, "eq": o.eq, "ne": o.ne, "and": o.and_, "or": o.or_}[op](a, b)
+    if k == "not":
+        return ~to_col(e[1], tb, F)
+    if k == "neg":
+        return -to_col(e[1], tb, F)
+    if k == "isNull":
+        return to_col(e[1], tb, F).isNull()
+    if k == "ite":
+        return F.when(to_col(e[1], tb, F), to_col(e[2], tb, F)).otherwise(to_col(e[3], tb, F))
+    if k == "inlist":
+        return to_col(e[1], tb, F).isin(*list(e[2]))
+    if k == "like":
+        return to_col(e[1], tb, F).like(e[2])
+    if k in ("insub", "exists"):
+        return F.expr(to_sql(e))
+    raise ValueError(e)
 
 
 def build_impl(session: t.Any, tb: t.Any, d: dict) -> t.Any:
     from sqlframe.duckdb import functions as F
 
-    sh = _Shim(tb, F)
     p = d["pred"]
     st = p["style"]
     if st == "absent":
         where: t.Any = None
     elif st in ("sql", "const_sql"):
         where = pred_text(p)
+    elif st == "fexpr":
+        where = F.expr(pred_text(p))
     elif st == "const_py":
         where = tuple_(p["e"])[1]
     else:
-        where = X.to_column(tuple_(p["e"]), sh)
+        where = to_col(p["e"], tb, F)
         if st == "aliased":
             where = where.alias("p")
     if d["k"] == "delete":
@@ -335,11 +816,14 @@ def build_impl(session: t.Any, tb: t.Any, d: dict) -> t.Any:
         if e[0] == "lit" and isinstance(e[1], int) and not isinstance(e[1], bool) and not s.get("alias"):
             val: t.Any = e[1]  # a bare Python literal
         else:
-            val = X.to_column(e, sh)
+            val = to_col(e, tb, F)
             if s.get("alias"):
                 val = val.alias("v")
         set_[key] = val
     return tb.update(set_, where=where)
+
+
+DDL = {"int": "bigint", "str": "varchar", "bool": "boolean"}
 
 
 def run_impl(c: dict) -> t.List[dict]:
@@ -348,16 +832,26 @@ def run_impl(c: dict) -> t.List[dict]:
     logging.getLogger("sqlframe").setLevel(logging.ERROR)
     session = vlib.fresh_duckdb_session()
     conn = session._conn
-    cols = list(c["schema"])
-    ddl = ", ".join(f"{k} {'bigint' if ty == 'int' else 'varchar'}" for k, ty in c["schema"].items())
-    conn.execute(f"create table tb ({ddl})")
-    if c["rows"]:
-        conn.executemany(f"insert into tb values ({', '.join('?' for _ in cols)})", [tuple(r) for r in c["rows"]])
+
+    def create(name: str, schema: t.Dict[str, str], rows: t.List[t.List[t.Any]]) -> None:
+        conn.execute(f"create table {name} ({', '.join(f'{k} {DDL[ty]}' for k, ty in schema.items())})")
+        if rows:
+            conn.executemany(f"insert into {name} values ({', '.join('?' for _ in schema)})", [tuple(r) for r in rows])
+
+    create("tb", c["schema"], c["rows"])
+    other = c.get("other")
+    if other:
+        create("o", other["schema"], other["rows"])
 
     def snapshot() -> dict:
         rows = conn.execute("select * from tb").fetchall()
         desc = conn.execute("describe tb").fetchall()
-        return {"cols": [d[0] for d in desc], "rows": [[plain(v) for v in r] for r in rows]}
+        snap = {"cols": [d[0] for d in desc], "rows": [[plain(v) for v in r] for r in rows]}
+        if other:
+            # "leaves every other row and column untouched": the table a subquery reads must not change either
+            orows = [[plain(v) for v in r] for r in conn.execute("select * from o").fetchall()]
+            snap["other_untouched"] = bag(orows) == bag([[plain(v) for v in r] for r in other["rows"]])
+        return snap
 
     handle = session.table("tb") if c.get("reuse_handle") else None
     lazies: t.Dict[int, t.Any] = {}
@@ -392,7 +886,7 @@ def run_impl(c: dict) -> t.List[dict]:
 
 
 def same_table(a: dict, b: dict) -> bool:
-    return a["cols"] == b["cols"] and bag(a["rows"]) == bag(b["rows"])
+    return a["cols"] == b["cols"] and bag(a["rows"]) == bag(b["rows"]) and a.get("other_untouched", True)
 
 
 def _preimport() -> None:
@@ -538,7 +1032,131 @@ def _gen_against_live_body(ctx: t.Any) -> int:
     expect("buildExecutes", session._conn.execute("select count(*) from tb").fetchall()[0][0] == 0, gen["buildExecutes"])
     le.execute()
     expect("executeRuns", session._conn.execute("select count(*) from tb").fetchall()[0][0] == 0, gen["executeRuns"])
+    # ---- which lexer reads a SQL-string predicate: [double-quoted token is a string, backticks quote, backslash escapes]
+    session._conn.execute("create table tl (k bigint, z bigint, s varchar)")
+    session._conn.execute("create table o (k bigint, w bigint)")
+    tl = session.table("tl")
+    dq, bt, esc = gen["predLex"]
+    e = tl.delete(where='s = "z"').expression.args["where"].this
+    expect("predDialect: a double-quoted token is a string literal", isinstance(e.expression, exp.Literal), dq)
+    try:
+        tl.delete(where="`s` = 'a'")
+        ok = True
+    except Exception:  # noqa
+        ok = False
+    expect("predDialect: backticks quote an identifier", ok, bt)
+    e = tl.delete(where="s = 'a\\\\b'").expression.args["where"].this
+    expect("predDialect: a backslash escapes", len(e.expression.this) == 3, esc)
+    expect("sessionInputDefault", type(session.input_dialect).__name__.lower(), gen["sessionInputDefault"])
+    expect("sessionOutputDefault", type(session.output_dialect).__name__.lower(), gen["sessionOutputDefault"])
+    # the model's table of lexers (Impl/C15Dml.lean `lexOf`) against the installed sqlglot, every dialect it names
+    import sqlglot
+
+    for name, want in sorted(gen["lexTable"].items()):
+
+        def probe(txt: str) -> t.Any:
+            try:
+                return sqlglot.parse_one(txt, dialect=name or None).expression
+            except Exception:  # noqa
+                return None
+
+        r1, r2, r3 = probe('x = "ab"'), probe("x = `ab`"), probe("x = 'a\\\\b'")
+        got = [isinstance(r1, exp.Literal), isinstance(r2, exp.Column), isinstance(r3, exp.Literal) and len(r3.this) == 3]
+        n += 1
+        if got != want:
+            ctx.broken.append(f"Impl lexOf {name!r} = {want} (double-quoted string, backtick identifier, backslash escape) but sqlglot shows {got}")
+    # ---- the re-qualification loops visit every reference, those inside subqueries too (`QExpr.mapQ`)
+    e = tl.delete(where="k IN (SELECT k FROM o WHERE w > 1)").expression.args["where"].this
+    inner = [c for c in e.find_all(exp.Column) if c.find_ancestor(exp.Select) is not None]
+    expect("predMatches[none] inside a subquery", sorted({c.table for c in inner}), ["tl"] if gen["predMatches"][0] and to == "phys" else [""])
+    e = tl.update({"z": F.expr("CASE WHEN k IN (SELECT k FROM o) THEN 1 ELSE 0 END")}).expression.expressions[0].expression
+    inner = [c for c in e.find_all(exp.Column) if c.find_ancestor(exp.Select) is not None]
+    expect("rhsMatches[none] inside a subquery", sorted({c.table for c in inner}), ["tl"] if gen["rhsMatches"][0] and qual_name(gen["rhsTo"]) == "phys" else [""])
+    e = tl.delete(where="EXISTS (SELECT 1 FROM o WHERE o.k = 1)").expression.args["where"].this
+    expect("predMatches[sub]", sorted({c.table for c in e.find_all(exp.Column)}), ["tl"] if gen["predMatches"][4] else ["o"])
+    # ---- the WHERE of the statement is the normalised predicate itself (`exp.Where(this=condition)`): no rewriting
+    probes = [
+        lambda tb_: tb_["s"].isin("x", "y") | ~tb_["s"].isin("x", "y"),
+        lambda tb_: ~((tb_["k"] > 1) & ~(tb_["k"] > 1)),
+        lambda tb_: "k = k AND NOT (z <> z)",
+        lambda tb_: (tb_["k"] - tb_["k"]) == 0,
+        lambda tb_: F.col("s").like("a%") | ~F.col("s").like("a%"),
+    ]
+    for mk in probes:
+        h = session.table("tl")
+        stmt_d = h.delete(where=mk(h)).expression.args["where"].this.sql()
+        stmt_u = h.update({"z": 1}, where=mk(h)).expression.args["where"].this.sql()
+        h2 = h._convert_leaf_to_cte() if not h.expression.ctes else h
+        h2 = type(h)(**__import__("sqlglot.helper", fromlist=["object_to_dict"]).object_to_dict(h2))
+        cond = h2._ensure_where_condition(mk(h2)).sql()
+        expect("delete: WHERE is the normalised predicate", stmt_d, cond)
+        expect("update: WHERE is the normalised predicate", stmt_u, cond)
     return n
+
+
+# ------------------------------------------------------------------------------------------------
+# comparison C: PySpark <-> specification (which rows a predicate text selects; DataFrame.filter(text))
+# ------------------------------------------------------------------------------------------------
+
+ORACLE = os.path.join(vlib.VERIF, "tools", "oracle", "c15_pyspark.json")
+
+
+def spec_selected(items: t.List[dict]) -> t.List[t.Optional[t.List[str]]]:
+    """the rows the SPECIFICATION says `delete(where=text)` removes (as a bag), None where it rejects the statement"""
+    cases = []
+    for it in items:
+        c = {"schema": it["schema"], "rows": it["rows"], "dmls": [{"k": "delete", "pred": it["pred"]}], "cmds": [["build", 0], ["exec", 0]]}
+        if it.get("other"):
+            c["other"] = it["other"]
+        cases.append(c)
+    outs = vlib.run_driver("C15", [case_to_lean(i, c) for i, c in enumerate(cases)])
+    res: t.List[t.Optional[t.List[str]]] = []
+    for it, o in zip(items, outs):
+        st = o["steps"][-1]
+        if st["specExec"] != "ok":
+            res.append(None)
+            continue
+        left = bag(st["spec"]["rows"])
+        sel = bag([[plain(v) for v in r] for r in it["rows"]])
+        for x in left:
+            sel.remove(x)
+        res.append(sel)
+    return res
+
+
+def compare_with_pyspark(items: t.List[dict], answers: t.List[dict]) -> t.List[str]:
+    bad = []
+    for it, a, sel in zip(items, answers, spec_selected(items)):
+        if "error" in a:
+            continue  # PySpark does not accept the text (e.g. a correlated reference it cannot plan): nothing to compare
+        got = bag([[plain(v) for v in r] for r in a["selected"]])
+        if sel is None or got != sel:
+            bad.append(f"{it['text']!r} on {it['rows']} (o = {(it.get('other') or {}).get('rows')}): PySpark selects {a['selected']}, the specification {'rejects the statement' if sel is None else sel}")
+    return bad
+
+
+def pyspark_items(cases: t.List[dict], limit: int) -> t.List[dict]:
+    """single statements whose predicate can be written as one SQL text"""
+    items = []
+    for c in cases:
+        for d in c["dmls"]:
+            p = d["pred"]
+            if p["style"] in ("absent",) + CONST_STYLES or len(items) >= limit:
+                continue
+            q = dict(p, style="sql", e=force_bare_all(p["e"]), wrapped=True)
+            items.append({"schema": c["schema"], "rows": c["rows"], "other": c.get("other"), "pred": q, "text": pred_text(q)})
+    return items
+
+
+def live_pyspark(items: t.List[dict], timeout: int = 900) -> t.Optional[t.List[dict]]:
+    import subprocess
+
+    script = os.path.join(os.path.dirname(os.path.abspath(__file__)), "c15_spark.py")
+    try:
+        p = subprocess.run(["/venv/bin/python", script], input=json.dumps(items), capture_output=True, text=True, timeout=timeout, env=dict(os.environ, PYSPARK_PYTHON="/venv/bin/python"))
+        return json.loads(p.stdout) if p.returncode == 0 else None
+    except Exception:  # noqa  (no JVM: the recorded answers remain)
+        return None
 
 
 # ------------------------------------------------------------------------------------------------
@@ -566,12 +1184,38 @@ def classify(r: dict, known: t.Dict[str, dict]) -> t.Tuple[str, t.List[str]]:
     hs = [h for h in sc if h.startswith("H_")]
     if not sc:
         return "violation", []
+    if any(h.startswith("D_") for h in sc):
+        # the statement is outside the property (a reference style / an assignment value the property does not speak
+        # about; generated on purpose in one small family): the model predicted the implementation (checked above),
+        # nothing is claimed about the specification
+        return "declared", [h for h in sc if h.startswith("D_")]
     if all(h in known for h in hs):
         return ("known", hs) if hs else ("declared", [h for h in sc if h.startswith("D_")])
     return "violation", hs
 
 
-def shrink(c: dict, bad: t.Callable[[dict], bool], rounds: int = 12) -> dict:
+def smaller_exprs(e: t.Any) -> t.List[tuple]:
+    """boolean-typed parts a predicate can be replaced by while it stays well-typed"""
+    e = tuple_(e)
+    k = e[0]
+    out: t.List[tuple] = []
+    if k == "bin" and e[1] in ("and", "or"):
+        out += [e[2], e[3]]
+        out += [("bin", e[1], x, e[3]) for x in smaller_exprs(e[2])] + [("bin", e[1], e[2], x) for x in smaller_exprs(e[3])]
+    elif k == "not":
+        out += [e[1]] + [("not", x) for x in smaller_exprs(e[1])]
+    elif k == "ite" and all(tuple_(x)[0] != "lit" or isinstance(tuple_(x)[1], bool) for x in (e[2], e[3])):
+        out += [e[1]]
+    elif k == "inlist" and len(e[2]) > 1:
+        out += [("inlist", e[1], list(e[2][:i]) + list(e[2][i + 1 :])) for i in range(len(e[2]))]
+    elif k == "insub":
+        out += [("insub", e[1], e[2], x) for x in smaller_exprs(e[3])] + [("insub", e[1], e[2], ("lit", True))] * (tuple_(e[3]) != ("lit", True))
+    elif k == "exists":
+        out += [("exists", x) for x in smaller_exprs(e[1])]
+    return out
+
+
+def shrink(c: dict, bad: t.Callable[[dict], bool], rounds: int = 16) -> dict:
     best = c
     for _ in range(rounds):
         cands = []
@@ -583,11 +1227,28 @@ def shrink(c: dict, bad: t.Callable[[dict], bool], rounds: int = 12) -> dict:
                 cands.append(dict(best, dmls=dm, cmds=cm))
         for i in range(len(best["rows"])):
             cands.append(dict(best, rows=best["rows"][:i] + best["rows"][i + 1 :]))
+        other = best.get("other")
+        if other:
+            if not any(has_kind(d["pred"].get("e", ("lit", True)), ("insub", "exists")) for d in best["dmls"]):
+                cands.append({k: v for k, v in best.items() if k != "other"})
+            for i in range(len(other["rows"])):
+                cands.append(dict(best, other=dict(other, rows=other["rows"][:i] + other["rows"][i + 1 :])))
+
+        def with_dml(j: int, d2: dict) -> dict:
+            return dict(best, dmls=best["dmls"][:j] + [d2] + best["dmls"][j + 1 :])
+
         for j, d in enumerate(best["dmls"]):
             if d["k"] == "update" and len(d["sets"]) > 1:
                 for si in range(len(d["sets"])):
-                    d2 = dict(d, sets=d["sets"][:si] + d["sets"][si + 1 :])
-                    cands.append(dict(best, dmls=best["dmls"][:j] + [d2] + best["dmls"][j + 1 :]))
+                    cands.append(with_dml(j, dict(d, sets=d["sets"][:si] + d["sets"][si + 1 :])))
+            p = d["pred"]
+            if p["style"] not in ("absent",) + CONST_STYLES:
+                for e2 in smaller_exprs(p["e"])[:12]:
+                    cands.append(with_dml(j, dict(d, pred=dict(p, e=e2))))
+            for f in list(p.get("sp") or {}):
+                cands.append(with_dml(j, dict(d, pred=dict(p, sp={k: v for k, v in p["sp"].items() if k != f}))))
+        oschema = (best.get("other") or {}).get("schema") or {}
+        cands = [cd for cd in cands if not any(engine_trap(d["pred"].get("e", ("lit", True)), oschema) for d in cd["dmls"])]
         if not cands:
             break
         res = evaluate(cands, workers=1)
@@ -623,7 +1284,13 @@ def cases_for(ctx: Ctx) -> t.List[dict]:
                     c = gen_case(rng, 1, pred_style=ps, rhs_style=rs, kind=kind)
                     c["origin"] = "style-grid"
                     cases.append(c)
-    for _ in range(3000 if ctx.thorough else 260):
+    th = ctx.thorough
+    # targeted families (see the docstrings): laws of two-valued logic that three-valued logic does not have,
+    # predicates with subqueries on another table, SQL text in spellings on which SQL lexers differ
+    cases += gen_tautology_cases(rng, 400 if th else 64)
+    cases += gen_subquery_cases(rng, 300 if th else 40)
+    cases += gen_spelling_cases(rng, 240 if th else 36)
+    for _ in range(3000 if th else 220):
         c = gen_case(rng, rng.randint(1, 4))
         c["origin"] = "random"
         cases.append(c)
@@ -672,6 +1339,30 @@ def run(ctx: Ctx) -> None:
         ctx.broken.append(f"comparison of Gen.Dml with the live builder raised {type(e).__name__}: {str(e)[:160]}")
     del ctx.broken[nb + 5 :]
 
+    # comparison C: the specification's reading of predicate texts against PySpark (recorded; live in the thorough tier)
+    spark_n = spark_live = 0
+    try:
+        if os.path.exists(ORACLE):
+            rec = json.load(open(ORACLE))["items"]
+            bad = compare_with_pyspark(rec, [it["pyspark"] for it in rec])
+            spark_n = len(rec)
+            if bad:
+                ctx.broken.append(f"comparison C: the specification differs from recorded PySpark on {len(bad)} of {len(rec)} predicate texts; first: {bad[0][:300]}")
+        if ctx.thorough:
+            items = pyspark_items([c for c in cases if c.get("origin", "").split(":")[0] in ("two-valued-identity", "subquery", "sql-spelling")], 150)
+            items += pyspark_items([c for c in cases if c.get("origin") == "random"], 250)[150:]
+            ans = live_pyspark(items)
+            if ans is not None and len(ans) == len(items):
+                bad = compare_with_pyspark(items, ans)
+                spark_live = sum("error" not in a for a in ans)
+                if bad:
+                    ctx.broken.append(f"comparison C (live): the specification differs from PySpark on {len(bad)} of {spark_live} predicate texts; first: {bad[0][:300]}")
+            else:
+                log("live PySpark not available: only the recorded answers were compared")
+    except Exception as e:  # noqa
+        ctx.broken.append(f"comparison C raised {type(e).__name__}: {str(e)[:200]}")
+    ctx.cov["pyspark_filter_checked"] = spark_n + spark_live
+
     viol, model_bad = [], []
     hist: t.Dict[str, int] = {}
     for r in res:
@@ -719,14 +1410,28 @@ def run(ctx: Ctx) -> None:
     len_hist: t.Dict[str, int] = {}
     err_hist: t.Dict[str, int] = {}
     nontrivial = set()
+    origin_hist: t.Dict[str, int] = {}
+    node_hist: t.Dict[str, int] = {}
+    spell_hist: t.Dict[str, int] = {}
+    identity_hist: t.Dict[str, int] = {}
+    null_pred_rows = 0
     lazy_checked = 0
     changed_rows = 0
     for r in res:
         c = r["case"]
         len_hist[str(len(c["dmls"]))] = len_hist.get(str(len(c["dmls"])), 0) + 1
+        og = c.get("origin", "random").split(":")
+        origin_hist[og[0]] = origin_hist.get(og[0], 0) + 1
+        if og[0] == "two-valued-identity":
+            identity_hist[og[1]] = identity_hist.get(og[1], 0) + 1
         for d in c["dmls"]:
             kind_hist[d["k"]] = kind_hist.get(d["k"], 0) + 1
             pred_hist[d["pred"]["style"]] = pred_hist.get(d["pred"]["style"], 0) + 1
+            for nk in ("inlist", "like", "insub", "exists"):
+                if "e" in d["pred"] and has_kind(d["pred"]["e"], (nk,)):
+                    node_hist[nk] = node_hist.get(nk, 0) + 1
+            for f in d["pred"].get("sp") or {}:
+                spell_hist[f] = spell_hist.get(f, 0) + 1
             if d["k"] == "update":
                 for s in d["sets"]:
                     st = "literal" if tuple_(s["e"])[0] == "lit" else ("/".join(sorted({q.split(":")[0] for q in _leaves(s["e"])})) or "const-expr")
@@ -746,17 +1451,27 @@ def run(ctx: Ctx) -> None:
         {
             "evaluations": len(res),
             "distinct_nontrivial": len(nontrivial),
-            "rule": "corpus; every predicate style {table['c'], F.col('c'), mixed, SQL string, None, aliased} x assignment style {table['c'], F.col('c'), mixed, literal} x {update, delete}; "
-            "random sequences of 1..4 statements with build/execute orders (paired, deferred, permuted, executed twice), on one reused handle or a fresh handle per call; "
+            "rule": "corpus; every predicate style {table['c'], F.col('c'), mixed, SQL string, F.expr(text), None, aliased, constants} x assignment style {table['c'], F.col('c'), mixed, literal} x {update, delete}; "
+            "targeted: (a) 37 laws of two-valued logic / arithmetic (p|~p, ~(p&~p), x==x, x-x==0, absorption, ...) instantiated with every kind of atom (comparison, IN-list, LIKE, boolean column, IS NULL, <=>, composite) over tables that contain an all-NULL row; "
+            "(b) predicates with IN (SELECT ...) / EXISTS subqueries on a second table that shares column names with the target (bare, o.-qualified and correlated references; as SQL string, F.expr, and mixed with table['c']); "
+            "(c) SQL-string predicates spelled with double-quoted strings, backticks, ==, !=, upper-case names over string data containing column names, a quote and a backslash; "
+            "random sequences of 1..4 statements (all of the above mixed in) with build/execute orders (paired, deferred, permuted, executed twice), on one reused handle or a fresh handle per call; "
             "non-trivial = distinct cases whose final table differs from the initial one and is non-empty",
             "traces_validated_against_impl": sum(r["first_model_diff"] is None for r in res),
             "cases_agreeing_with_specification": hist.get("ok", 0),
             "cases_with_known_finding": hist.get("known", 0),
+            "cases_outside_the_property(declared scope D_refStyles; model still compared)": hist.get("declared", 0),
             "cases_changing_the_table": changed_rows,
             "laziness_observations(table read after each build)": lazy_checked,
             "generated_decisions_checked_against_live_builder": n_gen,
+            "predicate_texts_compared_with_pyspark(recorded)": spark_n,
+            "predicate_texts_compared_with_pyspark(live)": spark_live,
             "statement_kind_histogram": kind_hist,
             "predicate_style_histogram": pred_hist,
+            "family_histogram": origin_hist,
+            "predicate_node_histogram(IN-list, LIKE, subqueries)": node_hist,
+            "sql_spelling_histogram": spell_hist,
+            "two_valued_identities_exercised": len(identity_hist),
             "assignment_reference_histogram": rhs_hist,
             "length_histogram": dict(sorted(len_hist.items())),
             "implementation_errors": err_hist,
@@ -764,7 +1479,8 @@ def run(ctx: Ctx) -> None:
         }
     )
     ctx.assumptions += [
-        "DuckDB's UPDATE / DELETE mean what Impl/C15Dml.lean `sqlUpdate` / `sqlDelete` say (right-hand sides read the old row, NULL selects nothing), and a reference binds inside the statement iff it is bare or qualified with the statement's table (`dmlScope`): validated by this stream on every case, table read directly from the connection after every build and every execute",
+        "DuckDB's UPDATE / DELETE mean what Impl/C15Dml.lean `sqlUpdate` / `sqlDelete` say (right-hand sides read the old row, NULL selects nothing), scalar expressions what `evalS` says (three-valued logic, IN as a chain of ORed equalities, LIKE with % and _, a bare name inside a subquery is the subquery table's column if it has one of that name and the target row's otherwise), and a reference binds inside the statement iff it is bare or qualified with the statement's table (`dmlScope`): validated by this stream on every case, table read directly from the connection after every build and every execute (the subquery's table must be unchanged too)",
+        "Spark SQL reads a double-quoted token as a string literal, a backticked one as an identifier, and a backslash inside a literal as an escape (`sparkLex`, `unescape`); sqlglot's lexers per dialect are what `lexOf` says (compared with the installed sqlglot on every run)" + ("; a sample of SQL-string predicates was compared with live PySpark (DataFrame.filter)" if ctx.cov.get("pyspark_filter_checked") else ""),
         "assignments are well-typed (integer expressions to bigint columns, strings to varchar columns) and values stay far below BIGINT overflow: the model is untyped and unbounded",
         "rows are compared as bags (the tables contain duplicates and NULLs)",
         "the specification reads table['c'], F.col('c') and names inside SQL strings as the row's own column c (Delta-style update / delete); there is no PySpark DataFrame API to compare with",
